@@ -438,7 +438,7 @@ def run(ctx):
             for wi in range(ctx.scale(1, 6)):
                 w = World(ctx.rng)
                 w.make_base(clock, ctx.scale(14, 40))
-                check_sequences(ctx, w, clock, ctx.scale(110, 1500), f"w{wi}s")
+                check_sequences(ctx, w, clock, ctx.scale(90, 1500), f"w{wi}s")
                 if ctx.thorough and wi == 0:
                     check_all_bitflips(ctx, w, clock, 20)
     finally:
